@@ -247,6 +247,14 @@ func c05Once(c *run.Ctx, t c05Case, code *gojq.Code, input, variable any, lits [
 				}
 				return
 			}
+			if run.Huge(v, 200000) {
+				if run.Cyclic(v) {
+					fail = run.Failf("%q emitted a cyclic value as output #%d (a container that contains itself: an in-place write went through an alias)", t.Src, n)
+					return
+				}
+				r.end = "budget"
+				return
+			}
 			if len(outs) < 60 {
 				outs = append(outs, v)
 				outSnaps = append(outSnaps, deepSnap(v))
@@ -415,6 +423,22 @@ var c05Hand = []string{
 	"[1, 2, 3] | .[1:] | . + [4]", "[1, 2, 3][:2] | .[0] = 7", "{\"a\": [1, 2, 3]} | .a[1:] = [9]", "[[1, 2, 3]] | .[0][1:] |= map(. + 1)", "{\"a\": {\"b\": 1}, \"c\": [1, {\"d\": 2}]} | del(.a.q)", "[[1, 2]] | (.[0], .[0]) |= . + [3]", "{} | .a.b.c = 1 | .a.b.d = 2", "[[]] | .[0][2] = 1 | .[0][5] = 2",
 }
 
+// c05Regex: one compiled program evaluating the same pattern under unsupported and supported flag sets in every
+// order: whatever a run caches must not change what the next run (or a later call of the same run) yields.
+func c05Regex() []string {
+	var out []string
+	for _, re := range []string{"b", "a.", "(?<x>a)", "^", "[a-c]+"} {
+		for _, fa := range []string{"\"x\"", "\"gx\"", "\"s\"", "\"n\"", "\"ig z\"", "1", "null", "\"g\"", "\"i\""} {
+			for _, fb := range []string{"null", "\"g\"", "\"i\"", "\"\"", "\"x\"", "\"gi\""} {
+				r := "\"" + re + "\""
+				out = append(out, "\"abcABC\" | [(try test("+r+"; "+fa+") catch \"ERR\"), (try test("+r+"; "+fb+") catch \"ERR\"), (try [match("+r+"; "+fa+") | .offset] catch \"ERR\"), (try [match("+r+"; "+fb+") | .offset] catch \"ERR\")]")
+				out = append(out, "\"abcABC\" | [(try sub("+r+"; \"_\"; "+fb+") catch \"ERR\"), (try sub("+r+"; \"_\"; "+fa+") catch \"ERR\"), (try [scan("+r+"; "+fa+")] catch \"ERR\")]")
+			}
+		}
+	}
+	return out
+}
+
 func init() {
 	run.Register(&run.Prop{
 		ID: "C05", Level: "exploration", MinNontrivial: 2000,
@@ -427,6 +451,9 @@ func init() {
 					kC05.Do(c, c05Case{Src: src, Alias: a})
 					kC05.Do(c, c05Case{Src: src, Alias: a, Abandon: 1})
 				}
+			}
+			for _, src := range c05Regex() {
+				kC05.Do(c, c05Case{Src: src, Alias: 0})
 			}
 			for _, src := range sweepPrograms(r, c.N(4, 40)) {
 				kC05.Do(c, c05Case{Src: src, Alias: r.IntN(10)})
